@@ -3,6 +3,7 @@ package main
 import (
 	"fmt"
 	"go/token"
+	"go/types"
 	"strings"
 
 	"golang.org/x/tools/go/ssa"
@@ -144,6 +145,9 @@ func checkC17(c *Ctx, p *Prog, r *Result) {
 	r.note("received-byte counters: %v", sortedKeys(counters))
 	rs := c17Rules(p, counters)
 
+	c17ReadCounts(p, r, pkg)
+	c17ContentLength(p, r, pkg)
+
 	r.rule("C17.rename-guarded", "every rename of a received temp file requires digest-ok, and length-ok in modules that count received bytes")
 	r.floor("C17.rename-guarded", 3)
 	nsites := 0
@@ -228,5 +232,109 @@ func checkC17(c *Ctx, p *Prog, r *Result) {
 	}
 	if nsites < 3 {
 		r.fail("C17: expected 3 rename sites, found %d", nsites)
+	}
+}
+
+// c17ReadCounts: a Read may return fewer bytes than the buffer holds; code that
+// forwards or hashes what was read must use the returned count.
+func c17ReadCounts(p *Prog, r *Result, pkg string) {
+	rule := "C17.read-count-used"
+	r.rule(rule, "every call of a Read method (io.Reader / fs.File / os.File) in the file-transfer modules uses the returned byte count (a short read is legal; forwarding or hashing the whole buffer sends stale bytes and drops the tail)")
+	r.floor(rule, 1)
+	for _, fn := range p.Funcs {
+		if funcPkgPath(fn) != pkg {
+			continue
+		}
+		k := 0
+		for _, b := range fn.Blocks {
+			for _, in := range b.Instrs {
+				call, ok := in.(*ssa.Call)
+				if !ok {
+					continue
+				}
+				n := p.calleeOf(call.Common()).Name
+				tup, isTup := call.Type().(*types.Tuple)
+				if !strings.HasSuffix(n, ".Read") || !isTup || tup.Len() != 2 || !isErrorType(tup.At(1).Type()) || tup.At(0).Type().String() != "int" {
+					continue
+				}
+				k++
+				used := false
+				for _, ref := range *call.Referrers() {
+					if ex, ok := ref.(*ssa.Extract); ok && ex.Index == 0 && len(*ex.Referrers()) > 0 {
+						used = true
+					}
+				}
+				r.table(p, rule, fmt.Sprintf("Read #%d in %s (%s)", k, p.FuncName(fn), n), p.instrPos(in), used, "the byte count returned by Read is discarded")
+			}
+		}
+	}
+}
+
+// c17ContentLength: http.Response.ContentLength is -1 when the server did not
+// announce a length; using it as a size needs a sign check first.
+func c17ContentLength(p *Prog, r *Result, pkg string) {
+	rule := "C17.content-length-signed"
+	r.rule(rule, "a value loaded from http.Response.ContentLength (which is -1 for responses without a declared length) is passed to a call (io.LimitReader, make, CopyN ...) only where it was compared with zero / a lower bound first; comparisons and logging are free")
+	var fns []*ssa.Function
+	for _, fn := range p.Funcs {
+		if funcPkgPath(fn) == pkg {
+			fns = append(fns, fn)
+		}
+	}
+	sortFuncs(p, fns)
+	total := 0
+	for _, fn := range fns {
+		var loads []*ssa.UnOp
+		for _, b := range fn.Blocks {
+			for _, in := range b.Instrs {
+				if u, ok := in.(*ssa.UnOp); ok && u.Op == token.MUL {
+					if fa, ok := u.X.(*ssa.FieldAddr); ok && fieldName(fa.X.Type(), fa.Field) == "net/http.Response.ContentLength" {
+						loads = append(loads, u)
+					}
+				}
+			}
+		}
+		if len(loads) == 0 {
+			continue
+		}
+		g := fn
+		f := NewFlow(p, e3Rules(p), []*ssa.Function{g}, func(h *ssa.Function) bool { return h != g })
+		for i, u := range loads {
+			total++
+			bad := ""
+			var visit func(v ssa.Value, depth int)
+			visit = func(v ssa.Value, depth int) {
+				if depth > 3 || bad != "" {
+					return
+				}
+				for _, ref := range *v.Referrers() {
+					switch x := ref.(type) {
+					case *ssa.Convert:
+						visit(x, depth+1)
+					case *ssa.ChangeType:
+						visit(x, depth+1)
+					case ssa.CallInstruction:
+						n := p.calleeOf(x.Common()).Name
+						if strings.HasPrefix(n, "log/slog.") || strings.HasPrefix(n, "fmt.") {
+							continue
+						}
+						st := f.StateAt(x)
+						if !st.Has(Atom("v:lb0:" + canon(u))) {
+							bad = "passed to " + n + " at " + p.instrPos(x) + " without a lower-bound check"
+						}
+					case *ssa.MakeSlice:
+						if !f.StateAt(x).Has(Atom("v:lb0:" + canon(u))) {
+							bad = "sizes an allocation at " + p.instrPos(x) + " without a lower-bound check"
+						}
+					}
+				}
+			}
+			visit(u, 0)
+			r.table(p, rule, fmt.Sprintf("ContentLength load #%d in %s", i+1, p.FuncName(fn)), p.instrPos(u), bad == "", bad)
+		}
+	}
+	if total == 0 {
+		// nothing uses the field today: keep the rule armed with an explicit note
+		r.table(p, rule, "no use of http.Response.ContentLength as a size in package fsim", "-", true, "no load of the field in the package (rule armed for future uses)")
 	}
 }
